@@ -407,6 +407,20 @@ class Analyser:
                 for p in roots:
                     self.emit_mut(p, pure_of(recv, *allargs))
                 return pure_of(recv, *allargs)
+            if name in ("items", "keys", "values", "get", "copy", "__contains__", "index", "count"):
+                # reads the container and (references to) its elements, not the elements' content
+                elems = {p + "[*]" for p in roots}
+                self.emit(("obs", sorted(elems)))
+                classes = set()
+                for e in elems:
+                    classes |= set(self.types_of(e) or ())
+                base = ref_of(recv, *allargs)
+                ev = V(reads=base.reads | elems, arg=base.arg, aliases=elems, classes=classes or None)
+                if name in ("get",):
+                    return ev
+                if name in ("index", "count", "__contains__"):
+                    return V(reads=ev.reads, arg=ev.arg)
+                return V(reads=ev.reads, arg=ev.arg, elem=ev)
             if name in PURE_METHODS:
                 return pure_of(recv, *allargs)
             for p in roots:
@@ -497,8 +511,7 @@ class Frame:
         elif isinstance(st, ast.Return):
             self.returns.append(self.eval(st.value) if st.value is not None else V())
         elif isinstance(st, ast.Raise):
-            if st.exc is not None:
-                self.eval(st.exc)
+            pass      # the call ends with an exception: what the message reads is not part of any result
         elif isinstance(st, (ast.Assign, ast.AnnAssign)):
             if st.value is None:
                 return
@@ -891,8 +904,23 @@ class Frame:
                 m = ref_of(*allargs)
                 if c.__module__.split(".")[0] == PKG:
                     known = None
-                    if x.classes and not x.aliases and x.shallow is None:
-                        known = all(issubclass(k, c) for k in x.classes) or (False if not any(issubclass(k, c) for k in x.classes) else None)
+                    if x.aliases:
+                        # decide from the raw types of the samples (a path may hold dicts as well as creators)
+                        raw = set()
+                        complete = True
+                        for pth in x.aliases:
+                            ts = an.rawtypes.get(pth)
+                            if ts is None:
+                                complete = False
+                            else:
+                                raw |= set(ts)
+                        if x.local or x.shallow is not None:
+                            raw |= set(x.classes or ())
+                        if complete and raw:
+                            if all(issubclass(k, c) for k in raw):
+                                known = True
+                            elif not any(issubclass(k, c) for k in raw):
+                                known = False
                     elif x.classes:
                         if all(issubclass(k, c) for k in x.classes):
                             known = True
